@@ -1966,3 +1966,4 @@ def replay(ctx, payload):
             shutil.rmtree(_TMP[0], ignore_errors=True)
             _TMP[0] = None
 THEOREMS += ['gen_send_ffs', 'gen_send_ffcs', 'gen_send_ffe', 'gen_send_ffd']   # translator tie, second round (Props/C09Gen.lean)
+THEOREMS += ['gen_send_signal', 'gen_count_cores_in_state']   # translator tie, third round (Props/C09Gen.lean)
